@@ -217,6 +217,7 @@ func runC08(p *core.Prog, r *core.Result) {
 		"R8.2 for every in-module value type with attributes, the names it advertises (AttrNames) are names it answers (Attr): the encoder's has-attrs branch never encodes a nil",
 		"R8.3 a pickler case whose arguments are an open environment (can contain the subject again, since recursion is enabled) needs an in-progress guard, because NEWOBJ results are memoized only after their arguments",
 		"R8.4 no nondeterminism source (clock, pid, random, directory order, addresses, Go-map order into an ordered sink) is reachable from the fingerprint computation",
+		"R8.6 every argument the host pickler builds for a subject is computed from that subject alone (no captured or package-level state in its data flow): distinct closures never share an argument object that the unpickler then completes in place",
 		"R8.5 nothing dropped: every component of a function's environment (Env, ModuleEnv, Bytecode, Code) flows into the pickled tuple and every tuple element is consumed by the unpickler",
 	}
 	r.NotDecided = []string{"termination on very deep or very large acyclic data", "that every change of referenced code or values changes the fingerprint (depends on the Starlark compiler's ModuleEnv)", "encodability of every predeclared value kind (dynamic types stored in builtin dictionaries are not enumerated)"}
@@ -310,6 +311,33 @@ func runC08(p *core.Prog, r *core.Result) {
 			}
 		}
 	}
+
+	// ---- R8.6 the pickled form of a subject is a function of that subject alone
+	nElems := 0
+	for _, pc := range allCases {
+		for i, e := range pc.Elems {
+			if e == nil {
+				continue
+			}
+			nElems++
+			shared := ""
+			for v := range core.BackwardSlice(e, core.SliceOpts{Stores: true, ThroughCall: func(c *ssa.Call) bool { return true }}) {
+				switch x := v.(type) {
+				case *ssa.FreeVar:
+					shared = "the captured variable " + x.Name()
+				case *ssa.Global:
+					shared = "the package variable " + x.Name()
+				}
+			}
+			construct := fmt.Sprintf("%s#arg-%s[%d]-of-subject-only", fname(pc.Ret.Parent()), pc.Name, i)
+			if shared == "" {
+				r.OK("R8.6", construct, p.InstrPos(pc.Ret), "computed from the pickled subject alone")
+			} else {
+				r.Bad("R8.6", construct, p.InstrPos(pc.Ret), "argument %d of %s is computed from %s, state shared between different subjects of one encoding: two closures can then be given one argument object, which the encoder writes once and the unpickler - which completes a function's environment by filling the dictionary decoded from its code argument in place - merges, so a change to a value captured by one of them no longer changes the fingerprint", i, pc.Name, shared)
+			}
+		}
+	}
+	r.Floor("R8.6", nElems, 3, "elements of pickled argument tuples")
 
 	// ---- R8.5 producer side: results of environment accessors flow into the tuple
 	producers := map[*ssa.Function]bool{}
